@@ -384,6 +384,8 @@ def shared(ctx):
     core.import_rules(ctx, [c16.r1_builtins_first, c16.r2_create_builtins, c16.r3_no_deletion], "X16")
     core.import_rules(ctx, [c18.r1_gate_chain], "X18")
     core.import_rules(ctx, [c20.r1_protocol, c20.r2_confinement, c20.r3_flag_provenance, c20.r4_activation], "X20")
+    from rules.props import c06
+    core.import_rules(ctx, [c06.r5_activation_table], "X06")          # ERG/SYM exists where it is unwrapped because creation and use ask the same predicate (tip_902)
 
 
 RULES = [r1_inventory, r2_recursion, r3_loops, shared]
